@@ -636,7 +636,14 @@ class TaskHandler(PoolThread):
                     continue
                 break
             except Exception:
-                job, ind = task[1][:2] if task else (0, 0)
+                if task:
+                    job, ind = task[1][:2]
+                else:
+                    # the iterable failed before yielding a first task: the
+                    # job is the one whose length was to be announced.
+                    job = getattr(getattr(set_length, '__self__', None),
+                                  '_job', None)
+                    ind = -1
                 if job in cache:
                     cache[job]._set(ind + 1, (False, ExceptionInfo()))
                 if set_length:
